@@ -38,7 +38,7 @@ TEXT = {
          "contract-based deductive verification (Verus) of the real convert_to / no_simplify / with_conversion_target / ConvertTo arm; loop abstracted by havoc"),
  "C05": ("other", "4.9", "PARTIAL (one clause): Verus proves that full_simplify and full_simplify_with_registry return a value marked by an explicit conversion unchanged (the marking itself is proved for the ConvertTo arm). Preservation of dimension and magnitude by the simplification heuristics is NOT covered.",
          "contract-based deductive verification (Verus) of the can_simplify guards of the real full_simplify / full_simplify_with_registry (function tails abstracted)"),
- "C10": ("other", "4.10", "PARTIAL (operator levels only): Verus proves for all token sequences that every precedence-level function of the real recursive-descent parser (condition .. unicode_power, and the generic parse_binop with its closures) returns exactly the tree that the documented precedence/associativity table prescribes for the tokens it consumed (spec relation g written from book/src/basics/operations.md). call/primary/arguments, `|>`, statements, the tokenizer and completeness of acceptance are not covered.",
+ "C10": ("other", "4.10", "PARTIAL (operator levels only): Verus proves for all token sequences that every precedence-level function of the real recursive-descent parser (condition .. unicode_power, and the generic parse_binop with its closures) returns exactly the tree that the documented precedence/associativity table prescribes for the tokens it consumed (spec relation g written from book/src/basics/operations.md). call/primary/arguments, statements, the tokenizer and completeness of acceptance are not covered (reverse application `|>` IS covered).",
          "contract-based deductive verification (Verus) of the real parser level functions against a recursive grammar relation; higher-order contracts (call_requires / call_ensures) for parse_binop's closures"),
  "C22": ("other", "4.11", "PARTIAL (exit-status logic): Verus proves that the input loop of the real Cli::run returns Ok iff no evaluated input asked to stop (and then has evaluated all of them), that every error arm of parse_and_evaluate maps to exit_status_in_case_of_error, and that this is Break(Error) in normal mode. Stream routing, printing, `-e` joining, process::exit in main and the REPL are not covered.",
          "contract-based deductive verification (Verus) of the real run loop (statement-level extraction), the error arms of parse_and_evaluate (arm-level) and exit_status_in_case_of_error"),
